@@ -201,6 +201,10 @@ private:
     //! Computing Sample Variances"
     double combine_variance(const Aggregate& other) const noexcept
     {
+        if (count_ == 0)
+            return other.nvar_;
+        if (other.count_ == 0)
+            return nvar_;
         double delta = mean_ - other.mean_;
         return nvar_ + other.nvar_ +
                (delta * delta) * (count_ * other.count_) /
